@@ -195,13 +195,47 @@ CORPUS = [
 ]
 
 
+STMT_EVENTS = ["before_stmt", "after_stmt", "after_module_stmt", "after_expr_stmt"]
+
+
+def pair_battery(rng, thorough):
+    """stacks of a single-event tracer with another tracer on the six feature programs (no certificates, oracle only):
+    (i) every statement-level event alone x single expression-level events on the two programs with docstrings and look-alikes;
+    (ii) a random single event x a dense tracer (with and without before_stmt), per program; thorough: every event x every program"""
+    import battery
+    evs, deferred = rc.all_ast_events()
+    progs = battery.programs()
+    out = []
+    exprs = ["after_string", "after_expr_stmt", "after_int", "load_name", "after_call", "before_call", "after_return", "after_assign_rhs", "after_function_execution", "before_function_body"]
+    for pname in ("stmts", "funcs"):
+        for se in STMT_EVENTS:
+            for xe in (exprs if thorough else rng.sample(exprs, 4)):
+                if xe == se:
+                    continue
+                st = [{"events": [se], "guards": rng.random() < 0.5}, {"events": [xe], "guards": rng.random() < 0.5}]
+                if rng.random() < 0.5:
+                    st.reverse()
+                out.append({"src": progs[pname], "stack": st, "no_export": True})
+    for pname, src in progs.items():
+        singles = evs if thorough else rng.sample(evs, 6)
+        for e1 in singles:
+            dense = [e for e in evs if e != e1 and rng.random() < 0.8 and not (e == "before_stmt" and rng.random() < 0.6)]
+            st = [{"events": [e1], "guards": rng.random() < 0.5}, {"events": dense, "guards": rng.random() < 0.5}]
+            if rng.random() < 0.5:
+                st.reverse()
+            out.append({"src": src, "stack": st, "no_export": True})
+    return out
+
+
 def run(ctx, model_ok):
     rng = ctx.rng
     n = 50 if ctx.tier == "quick" else 500
     cases = [dict(rp) for rp in getattr(ctx, "known_replays", []) + getattr(ctx, "fixed_replays", [])] + [dict(c) for c in CORPUS]
     while len(cases) < n:
         cases.append(gen_case(rng))
-    impl = run_impl(cases)
+    pb = pair_battery(rng, ctx.tier != "quick")
+    impl = run_impl(cases) + run_impl(pb, export=False)
+    cases = cases + pb
     failures = []
     deliveries = 0
     for c, im in zip(cases, impl):
@@ -248,10 +282,11 @@ def run(ctx, model_ok):
         "distinct_nontrivial": len({lib.digest(c) for c, im in zip(cases, impl) if "configs" in im and len(im["configs"][0].get("global", [])) >= 4}),
         "rule": "generated programs (see C01) x stacks of 2-3 observing tracers with overlapping / disjoint / nested / identical event subsets (densities 0.15-0.8 of all "
                 "AST events incl. deferred) and independent global-guard flags, a third of the tracers with a dynamic node condition (by node type, line or column parity), a quarter of the stacks with handlers that call an instrumented function of the program; each stack run once stacked, once per tracer alone, once as one tracer subscribed to the union; "
-                "non-trivial = >=4 deliveries in the stacked run; distinct by sha1",
+                "non-trivial = >=4 deliveries in the stacked run; distinct by sha1; plus a pair battery on the six feature programs (oracle only): every statement-level event alone x "
+                "single expression-level events on the programs with docstrings, and single events x a dense tracer with / without before_stmt (thorough: every event x every program)",
         "samples": [{"stack": [{"n_events": len(t["events"]), "first": t["events"][:4], "guards": t["guards"], "pred": t.get("pred")} for t in cases[-1]["stack"]], "src_tail": cases[-1]["src"][-300:]}],
         "traces_validated": ok["proj"],
-        "distribution": {"stack_shapes": shapes, "deliveries_compared": deliveries, "certificates_checked": len(rows), "certificates_ok": ok},
+        "distribution": {"pair_battery_stacks": len(pb), "stack_shapes": shapes, "deliveries_compared": deliveries, "certificates_checked": len(rows), "certificates_ok": ok},
         "failures": failures, "extra": {"certificate_failures": len(bad)},
     }
 
